@@ -111,3 +111,76 @@ pub fn c13_capability_executor_b() {
     let b = nd::any_u8();
     dispatch!(b, cap_exec_case, 3 5 37 32 33);
 }
+
+/// Dropping a command releases everything it still holds: parked task futures (and whatever they
+/// captured) are dropped, queued outputs are dropped, and a late wake-up through a waker that
+/// outlives the command is harmless.  D: 0 = dropped while two tasks are parked, 1 = dropped before
+/// the first poll (root in the slab, a spawned task still in the spawn queue), 2 = dropped after an
+/// abort.
+fn command_drop_case<const D: u8>() {
+    use crate::script::{command_with, Cmd, Script, Step};
+    use crux_core::command::verif_hooks as hooks;
+    let (pa, pb) = (Arc::new(Probe::default()), Arc::new(Probe::default()));
+    let (sa, sb) = (Slot::new(), Slot::new());
+    let park = Step { keep_slot: true, effect: true, ..Step::pending() };
+    let mut cmd: Cmd = command_with([park, Step::pending(), Step::pending()], &pa, &sa, 1);
+    {
+        let (pb, sb) = (pb.clone(), sb.clone());
+        cmd.spawn(move |ctx| Script::new([park, Step::pending(), Step::pending()], &pb, &sb, ctx, 2));
+    }
+    if D != 1 {
+        hooks::run_until_settled(&mut cmd);
+        assert!(hooks::live_tasks(&cmd) == 2 && hooks::effects_len(&cmd) == 2, "two parked tasks, two queued effects");
+    }
+    if D == 2 {
+        cmd.abort_handle().abort();
+    }
+    drop(cmd);
+    assert!(pa.dropped() && pb.dropped(), "dropping the command drops every task future it still holds");
+    // wakers that outlive the command (parked with other owners) can still be invoked
+    if let Some(w) = sa.take() {
+        w.wake();
+    }
+    if let Some(w) = sb.take() {
+        w.wake_by_ref();
+        drop(w);
+    }
+    assert!(pa.polls() == u8::from(D != 1) && pb.polls() == u8::from(D != 1), "nothing runs after the drop");
+    nd_cover!(D == 0, "dropped while parked");
+    nd_cover!(D == 1, "dropped before the first poll");
+    nd_cover!(D == 2, "dropped after an abort");
+    std::mem::forget((pa, pb, sa, sb));
+}
+
+#[cfg_attr(kani, kani::proof, kani::unwind(8))]
+#[cfg_attr(kani, kani::stub(core::mem::MaybeUninit::write, crate::common::maybe_uninit_write))]
+pub fn c13_command_drop_releases() {
+    let d = nd::any_u8();
+    dispatch!(d, command_drop_case, 0 1 2);
+}
+
+/// Dropping the legacy capability executor (what dropping a `Core` does) drops the futures it still
+/// holds: one parked in the slab, one never adopted from the spawn queue; a waker that outlives the
+/// executor can still be invoked.
+#[cfg_attr(kani, kani::proof, kani::unwind(6))]
+#[cfg_attr(kani, kani::stub(core::mem::MaybeUninit::write, crate::common::maybe_uninit_write))]
+pub fn c13_executor_drop_releases() {
+    let (exec, spawner) = new_executor();
+    let (p1, p2) = (Arc::new(Probe::default()), Arc::new(Probe::default()));
+    let (s1, s2) = (Slot::new(), Slot::new());
+    spawner.spawn(Plain { bits: 0, probe: p1.clone(), slot: s1.clone() });
+    exec.run_all();
+    assert!(exec.live_tasks() == 1 && p1.polls() == 1, "one task parked");
+    spawner.spawn(Plain { bits: 0, probe: p2.clone(), slot: s2.clone() });
+    assert!(exec.spawn_len() == 1, "one task not adopted yet");
+    drop(spawner);
+    drop(exec);
+    assert!(p1.dropped(), "the parked future is dropped with the executor");
+    assert!(p2.dropped(), "the future that was never adopted is dropped with the executor");
+    if let Some(w) = s1.take() {
+        w.wake();
+    }
+    assert!(p1.polls() == 1 && p2.polls() == 0, "nothing runs after the drop");
+    nd_cover!(true, "executor dropped with work outstanding");
+    std::mem::forget((p1, p2, s1, s2));
+}
